@@ -9,6 +9,8 @@ run_one() {
   checks=$(python3 -c "import json;print(json.load(open('$d/meta.json')).get('checks','').replace(',',' '))")
   [ -z "$checks" ] && checks="${id%%-*}"
   res="MISSED"
+  # a change recorded as outside the simulated world (meta.json "expected": "not-caught") is listed, not counted as a regression
+  if [ "$(python3 -c "import json;print(json.load(open('$d/meta.json')).get('expected',''))")" = "not-caught" ]; then res="NOT-CAUGHT (recorded as outside the simulated world)"; fi
   for c in $checks; do
     tools/try_mutant_wt.sh "$d/patch.diff" "$c" quick > "$out/$id.$c.log" 2>&1; rc=$?
     if [ $rc -eq 1 ]; then res="caught by $c: $(grep -m1 -o 'kind=[^ ]*' $out/$id.$c.log)"; break; fi
